@@ -98,10 +98,13 @@ static void t_nearest(void *c, res_t *r) { qtreetbl_obj_t o = T_->find_nearest(T
 static void t_lockedwalk(void *c, res_t *r) { T_->lock(T_); qtreetbl_obj_t o; memset(&o, 0, sizeof o); rfmt(r, "w:"); int n = 0; while (T_->getnext(T_, &o, false) && n++ < 10) radd(r, "%s=%s,", (char *)o.name, (char *)o.data); T_->unlock(T_); }
 /* a second thread-safe table that only this thread uses: its lock does not order it against the shared table, so any
  * state the implementation shares between tables (file-scope variables) shows up as a data race */
+/* the documented "iteration from given point": lock(); find_nearest(); getnext()...; unlock() - a locking method called while the
+ * caller holds the table's lock (the lock is recursive) */
+static void t_lockednearwalk(void *c, res_t *r) { T_->lock(T_); qtreetbl_obj_t o = T_->find_nearest(T_, "b", 2, false); rfmt(r, "n:"); int n = 0; while (T_->getnext(T_, &o, false) && n++ < 10) radd(r, "%s=%s,", (char *)o.name, (char *)o.data); T_->unlock(T_); }
 static void t_debug(void *c, res_t *r) { FILE *f = fopen("/dev/null", "w"); rfmt(r, "%d", T_->debug(T_, f)); fclose(f); }
 static void t_max(void *c, res_t *r) { char *p = T_->find_max(T_, NULL); rfmt(r, "%s", p ? p : "NULL"); free(p); }
 static void t_owntable(void *c, res_t *r) { (void)c; qtreetbl_t *t = qtreetbl(QTREETBL_THREADSAFE); t->putstr(t, "p", "1"); t->putstr(t, "q", "2"); rfmt(r, "%zu", t->size(t)); t->free(t); }
-static cop_t T_OPS[] = {{"put(a)", t_puta}, {"put(b)", t_putb}, {"put(c)", t_putc}, {"get(a,&size,newmem)", t_geta}, {"get(b,newmem)", t_getb}, {"remove(a)", t_rema}, {"remove(b)", t_remb}, {"clear", t_clear}, {"find_min", t_min}, {"find_nearest(b,newmem)", t_nearest}, {"lock;walk;unlock", t_lockedwalk}, {"own-table put(p),put(q)", t_owntable}, {"debug", t_debug}, {"find_max", t_max}};
+static cop_t T_OPS[] = {{"put(a)", t_puta}, {"put(b)", t_putb}, {"put(c)", t_putc}, {"get(a,&size,newmem)", t_geta}, {"get(b,newmem)", t_getb}, {"remove(a)", t_rema}, {"remove(b)", t_remb}, {"clear", t_clear}, {"find_min", t_min}, {"find_nearest(b,newmem)", t_nearest}, {"lock;walk;unlock", t_lockedwalk}, {"own-table put(p),put(q)", t_owntable}, {"debug", t_debug}, {"find_max", t_max}, {"lock;find_nearest;walk;unlock", t_lockednearwalk}};
 
 /* ------------------------------------------------------------ qhashtbl (range 1: every key shares one chain) */
 static void *h_make(int init) { qhashtbl_t *t = qhashtbl(1, QHASHTBL_THREADSAFE); if (init) { t->putstr(t, "a", "1"); t->putstr(t, "b", "2"); } return t; }
